@@ -30,7 +30,7 @@ theorem toU64_le (x : ℤ) : toU64 x ≤ umax := by
   omega
 
 /-- the smallest prime `≥ m` is the prime of index `#{primes < m}` -/
-theorem isNext_eq {m q : ℕ} (h : IsNext m q) : q = Nat.nth Nat.Prime (Nat.count Nat.Prime m) :=
+theorem isNext_eq {m q : ℕ} (h : IsNextP m q) : q = Nat.nth Nat.Prime (Nat.count Nat.Prime m) :=
   nthp_next_eq_nth h.2.1 h.1 (fun x h1 h2 => h.2.2 x h1 h2)
 
 /-- k+1 calls of `next_prime()` -/
@@ -67,7 +67,7 @@ theorem nextLoop_eq (e : It.Env) (he : GenSpec e) :
     omega
 
 /-- the largest prime `≤ t` is the prime of index `π t - 1` -/
-theorem isPrev_eq {t p : ℕ} (h : IsPrev t p) : p = Nat.nth Nat.Prime (π t - 1) ∧ 1 ≤ π t ∧ π (p - 1) = π t - 1 := by
+theorem isPrev_eq {t p : ℕ} (h : IsPrevP t p) : p = Nat.nth Nat.Prime (π t - 1) ∧ 1 ≤ π t ∧ π (p - 1) = π t - 1 := by
   obtain ⟨h1, h2⟩ := nthp_prev_eq_nth h.2.1 h.1 (fun x hx hxt hxp => by have := h.2.2 x hxp hxt; omega)
   refine ⟨h1, h2, ?_⟩
   rw [Nat.primeCounting_sub_one, h1]
